@@ -351,6 +351,17 @@ def _limit_memory():
         pass
 
 
+def _worker_init():
+    """Workers must not outlive a killed parent (a timed-out check would keep 16 cores busy)."""
+    try:
+        import ctypes
+        import signal
+
+        ctypes.CDLL("libc.so.6", use_errno=True).prctl(1, int(signal.SIGKILL))  # PR_SET_PDEATHSIG
+    except Exception:  # noqa: BLE001
+        pass
+
+
 def _run_shard(prop, modname, shard, funcname, kwargs, tier, seed, known):
     import warnings
 
@@ -499,7 +510,7 @@ def main(argv=None):
     ctxmp = multiprocessing.get_context("spawn")
     nproc = min(NPROC, max(1, len(shard_list)))
     try:
-        with ProcessPoolExecutor(max_workers=nproc, mp_context=ctxmp) as pool:
+        with ProcessPoolExecutor(max_workers=nproc, mp_context=ctxmp, initializer=_worker_init) as pool:
             futs = {
                 pool.submit(_run_shard, prop, modname, name, func, kwargs, tier, seed, active): name
                 for (name, func, kwargs) in shard_list
